@@ -154,6 +154,11 @@ def run(ctx):
             kind.add("lookup")
         if ops & {"insert", "entry"}:
             kind.add("insert")
+            # an insert whose "was it new?" answer is the function's result is a test-and-set
+            if b.local_ty(0) == "bool":
+                locs, calls, _ = b.slice_back([0])
+                if any(cc.method == "insert" for (_, cc, _) in calls):
+                    kind.add("test-and-set")
         if kind:
             accessors[b.defp] = kind
     ctx.floor("K3", "salt-cache accessor functions", 1, len(accessors))
@@ -165,6 +170,14 @@ def run(ctx):
     ctx.floor("K3", "accept paths using the salt cache", 1, len(users))
     for (b, cs) in users:
         combined = [x for x in cs if accessors[x[1].target] >= {"lookup", "insert"}]
+        for x in cs:
+            if "test-and-set" in accessors[x[1].target]:
+                # the caller must refuse when the salt was already there
+                gs = [g for g in gates_of_value(b, x[2]["dest"][0]) if g.kind == "bool"]
+                from .common import err_return_reachable_only
+                if gs and any(err_return_reachable_only(b, g.bool_target(False)) for g in gs):
+                    combined.append(x)
+        inserts_plain = [x for x in cs if accessors[x[1].target] == {"insert"}]
         lookups = [x for x in cs if accessors[x[1].target] == {"lookup"}]
         inserts = [x for x in cs if accessors[x[1].target] == {"insert"}]
         ok = bool(combined) and not inserts
